@@ -252,7 +252,32 @@ def _run(V, work, tier):
     V.coverage["histories_replayed"] = len(uniq)
     V.coverage["operations_by_kind"] = opcount
     V.coverage["traces_validated_against_impl"] = len(uniq)
+    # ---- a mutator that is REFUSED (the allocation limit of the embedding) changes nothing: every reference reads as
+    # before, and the next allowed operation behaves as if the refused one had never been made (real against real)
+    OBS = "(list (length v) (length w) (length (car l)) (handler-bind ((condition (lambda (c &rest r) 'err))) (nth v 3)) (equal? v w) (to-string (format-string \"{}\" v)))"
+    refusals = [("(set 'v (vector 1 2 3)) (set 'w v) (set 'l (list v))", "(append! v 4 5 6)", "(append! v 4)"),
+                ("(set 'v (vector 1 2 3)) (set 'w (slice 'vector v 0 3)) (set 'l (list w))", "(append! w 4 5 6 7)", "(append! v 9)"),
+                ("(set 'v (to-bytes \"abc\")) (set 'w v) (set 'l (list v))", "(append-bytes! v \"defgh\")", "(append-bytes! v \"d\")"),
+                ("(set 'v (to-bytes \"abc\")) (set 'w v) (set 'l (list v))", "(append! v 1 2 3 4)", "(append! v 100)"),
+                ("(set 'v (vector 1 2 3 4)) (set 'w v) (set 'l (list v))", "(append! v 5 6)", "(append! v 5)")]
+    rrecs = []
+    for i, (setup, refused, allowed) in enumerate(refusals):
+        guard = "(handler-bind ((condition (lambda (c &rest r) (list 'refused c)))) %s)"
+        rrecs.append({"id": "x%d" % i, "seq": [setup, guard % refused, OBS, guard % allowed, OBS], "cfg": {"maxalloc": 5}})
+        rrecs.append({"id": "y%d" % i, "seq": [setup, "'nothing", OBS, guard % allowed, OBS], "cfg": {"maxalloc": 5}})
+    rres = {r["id"]: r["runs"][0]["evals"] for r in driver_json(binary, ["run"], rrecs)}
+    for i, (setup, refused, allowed) in enumerate(refusals):
+        x, y = rres["x%d" % i], rres["y%d" % i]
+        if x[1]["v"].get("t") != "list":
+            V.notes.append("the operation meant to be refused was carried out: %s" % refused)
+            continue
+        for j, what in ((2, "every reference right after the refusal"), (3, "the next allowed operation"), (4, "every reference after the next allowed operation")):
+            if json.dumps(x[j]["v"], sort_keys=True) != json.dumps(y[j]["v"], sort_keys=True):
+                V.add(None, "a refused %s left a trace: %s reads %s, without the refused call %s" % (refused, what, json.dumps(x[j]["v"])[:200], json.dumps(y[j]["v"])[:200]),
+                      {"src": rrecs[2 * i]["seq"], "cfg": {"maxalloc": 5}})
+                break
+    V.coverage["refused_mutators"] = len(refusals)
     V.coverage["exhaustive"] = False
     V.coverage["explanation"] = "exhaustive model checking of all 2-operation histories; %d distinct simulated histories of 5-6 operations replayed with every variable re-inspected after every step" % len(uniq)
-    V.assumptions += ["zip and insert-sorted are not in the operation alphabet of the heap model; byte strings have their own model (Bytes.tla) without views"]
+    V.assumptions += ["byte strings have their own model (Bytes.tla) without views"]
     return V.finish()
